@@ -411,6 +411,11 @@ def expectations(spec, path):
         for s in me["subs"]:
             if not s["hidden"] and not s["disabled"] and not s["anonymous"]:
                 must.append(("sub-command", s["name"]))
+                # the section of a listed sub-command shows its own arguments and options, whatever else it has
+                for a in s["args"]:
+                    must.append(("sub-command-argument", "<%s>" % a["name"]))
+                for o in s["opts"]:
+                    must.append(("sub-command-option", option_label(o)))
     return must, forbidden_names(spec, path)
 
 
@@ -697,6 +702,9 @@ def corner_trees():
         app([_cmd("remote", subs=[_cmd("add", args=[_arg("url", A_REQUIRED)])]), _cmd("user", subs=[_cmd("add", opts=[_opt("admin", "a")])])]),
         # an application title (display name + version) longer than a narrow terminal: the title line is wrapped like any text
         dict(app([_cmd("only")]), name="application-with-a-name", version="12.345.6789-beta.1+build.2024.10.05"),
+        # sub-commands that have nothing but options / nothing but arguments / nothing at all (no description, no help)
+        app([_cmd("bare", subs=[_cmd("onlyopts", desc=None, opts=[_opt("dry-run", "d"), _opt("depth", None, O_REQ)]),
+                                _cmd("onlyargs", desc=None, args=[_arg("target")]), _cmd("nothing", desc=None)])]),
         # elements without description (and nothing else special)
         app([_cmd("plain", opts=[_opt("nodesc", "x", desc=None)], args=[_arg("noarg", desc=None)])]),
     ]
